@@ -1,11 +1,13 @@
 package main
 
 import (
+	"bytes"
 	"encoding/json"
 	"fmt"
 	"math"
 	"math/rand"
 	"reflect"
+	"strings"
 	"time"
 
 	"github.com/99designs/gqlgen/graphql"
@@ -379,6 +381,10 @@ func checkJSONValue(c *vlib.Check, l *scLine, rng *rand.Rand, n int) int64 {
 		evals++
 		var v any
 		var out []byte
+		if l.Out == "refuse" {
+			checkNoJSON(c, l, rng)
+			continue
+		}
 		if l.Ty == "Map" {
 			var m map[string]any
 			switch l.Cl {
@@ -533,4 +539,60 @@ func checkOmittable(c *vlib.Check, l *scLine, rng *rand.Rand, n int) int64 {
 		}
 	}
 	return evals
+}
+
+// checkNoJSON: a value without JSON representation must not make the writer complete
+// with bytes that are not valid JSON.
+func checkNoJSON(c *vlib.Check, l *scLine, rng *rand.Rand) {
+	bad := []any{math.NaN(), math.Inf(1), math.Inf(-1)}
+	badNum := []any{json.Number("NaN"), json.Number("1,5"), json.Number("0x10"), json.Number("1e"), json.Number("--1"), json.Number("Infinity")}
+	var leaf any
+	switch l.Cl {
+	case "nan":
+		leaf = bad[0]
+	case "+inf":
+		leaf = bad[1]
+	case "-inf":
+		leaf = bad[2]
+	case "bad-number", "nested-bad-number":
+		leaf = badNum[rng.Intn(len(badNum))]
+	case "nested-nan":
+		leaf = bad[rng.Intn(len(bad))]
+	default:
+		vlib.Infra("specification printed an unknown no-JSON class %q", l.Cl)
+	}
+	v := leaf
+	if strings.HasPrefix(l.Cl, "nested-") || l.Ty == "Map" {
+		switch rng.Intn(3) {
+		case 0:
+			v = map[string]any{"a": 1, "v": leaf}
+		case 1:
+			v = map[string]any{"l": []any{"x", leaf}}
+		default:
+			v = map[string]any{"m": map[string]any{"v": leaf}, "z": "z"}
+		}
+		if l.Ty == "Any" && rng.Intn(2) == 0 {
+			v = []any{leaf, 1}
+		}
+	}
+	var buf bytes.Buffer
+	panicked := func() (p bool) {
+		defer func() {
+			if recover() != nil {
+				p = true
+			}
+		}()
+		if l.Ty == "Map" {
+			graphql.MarshalMap(v.(map[string]any)).MarshalGQL(&buf)
+		} else {
+			graphql.MarshalAny(v).MarshalGQL(&buf)
+		}
+		return false
+	}()
+	out := buf.Bytes()
+	if !panicked && validateJSON(out) != nil {
+		c.Violate("json:"+l.Ty+":no-json-value-written:"+l.Cl,
+			fmt.Sprintf("Marshal%s(%#v) completed and wrote %q, which is not valid JSON", l.Ty, v, out),
+			replay(l, map[string]any{"value": fmt.Sprintf("%#v", v), "output": string(out)}))
+	}
 }
